@@ -48,7 +48,11 @@ def gen(ctx):
     try:
         T.reset()
         x, mu = T.Sym.var("x", 0.83), T.Sym.var("mu", 0.0121505856)
-        d = T.retarget(lib._CollinearDynamicsService._dOmega_dx)(types.SimpleNamespace(mu=mu), x)
+        T.Sym.ABS_AS_SQRT = True        # |dx| is traced as sqrt(dx^2): the same term whether the code writes r_sq**1.5 or r_sq*abs(dx)
+        try:
+            d = T.retarget(lib._CollinearDynamicsService._dOmega_dx)(T.Proxy(lib._CollinearDynamicsService, dict(mu=mu)), x)
+        finally:
+            T.Sym.ABS_AS_SQRT = False
         named, defs = T.canonical_sqrt_names([d], "dq")
         for name, rep in defs:
             txt += E.re_def(name, rep, {"x": 0, "mu": 1})
@@ -63,20 +67,20 @@ def gen(ctx):
         try:
             T.reset()
             mu = T.Sym.var("mu", 0.0121505856)
-            coeffs, rng = T.retarget(cls._gamma_poly_def.fget)(types.SimpleNamespace(mu=mu))
+            coeffs, rng = T.retarget(cls._gamma_poly_def.fget)(T.Proxy(cls, dict(mu=mu)))
             txt += E.re_fun("quintic%d" % k, [T.Sym.lift(c) for c in coeffs], {"mu": 0})
             txt += "def quintic%d_range : (Int × Nat) × (Int × Nat) := (%s, %s)\n" % (k, rat(Fraction(rng[0])), rat(Fraction(rng[1])))
             # cn(n) for n = 2,3,4 (variables: 0 = gamma, 1 = mu)
             for n in (2, 3, 4):
                 T.reset()
                 g, mu2 = T.Sym.var("gamma", 0.15), T.Sym.var("mu", 0.0121505856)
-                c = T.retarget(cls._compute_cn)(types.SimpleNamespace(mu=mu2, gamma=g), n)
+                c = T.retarget(cls._compute_cn)(T.Proxy(cls, dict(mu=mu2, gamma=g)), n)
                 txt += E.re_def("cn%d_%d" % (k, n), c, {"gamma": 0, "mu": 1})
                 TR["cn%d_%d" % (k, n)] = c
             # sign, a, position of the secondary-side reference (won) as numbers / expressions
             T.reset()
             g, mu3 = T.Sym.var("gamma", 0.15), T.Sym.var("mu", 0.0121505856)
-            fake = types.SimpleNamespace(mu=mu3, gamma=g)
+            fake = T.Proxy(cls, dict(mu=mu3, gamma=g))
             sgn = cls.sign.fget(fake)
             txt += "def sign%d : Int := %d\n" % (k, int(sgn))
             txt += E.re_def("a%d" % k, T.Sym.lift(T.retarget(cls.a.fget)(fake)), {"gamma": 0, "mu": 1})
@@ -88,11 +92,11 @@ def gen(ctx):
     try:
         T.reset()
         c2 = T.Sym.var("c2", 5.1)
-        J = T.retarget(lib._CollinearDynamicsService._J_hess_H2, shim=_ShimInv())(types.SimpleNamespace(cn=lambda n: c2 if n == 2 else None))
+        J = T.retarget(lib._CollinearDynamicsService._J_hess_H2, shim=_ShimInv())(T.Proxy(lib._CollinearDynamicsService, dict(cn=lambda n: c2 if n == 2 else None), shim=_ShimInv()))
         txt += E.re_fun("jhess", [T.Sym.lift(J[i, j]) for i in range(6) for j in range(6)], nfvars)
         T.reset()
         lam, om1, c2 = T.Sym.var("lam", 2.9), T.Sym.var("om1", 2.3), T.Sym.var("c2", 5.1)
-        e = T.retarget(lib._CollinearDynamicsService._compute_scale_factor)(types.SimpleNamespace(cn=lambda n: c2), lam, om1)
+        e = T.retarget(lib._CollinearDynamicsService._compute_scale_factor)(T.Proxy(lib._CollinearDynamicsService, dict(cn=lambda n: c2)), lam, om1)
         s1, s2 = T.Sym.lift(e[0]), T.Sym.lift(e[1])
         if s1.op != "sqrt" or s2.op != "sqrt":
             raise ValueError("scale factors are not square roots")
@@ -100,7 +104,7 @@ def gen(ctx):
         T.reset()
         lam, om1, om2, c2 = T.Sym.var("lam", 2.9), T.Sym.var("om1", 2.3), T.Sym.var("om2", 2.27), T.Sym.var("c2", 5.1)
         s1v, s2v = T.Sym.var("s1", 20.0), T.Sym.var("s2", 9.0)
-        fake = types.SimpleNamespace(linear_modes=(lam, om1, om2), cn=lambda n: c2, scale_factor=lambda a, b: (s1v, s2v))
+        fake = T.Proxy(lib._CollinearDynamicsService, dict(linear_modes=(lam, om1, om2), cn=lambda n: c2, scale_factor=lambda a, b: (s1v, s2v)), shim=_ShimInv())
         C, Cinv = T.retarget(lib._CollinearDynamicsService._build_normal_form, shim=_ShimInv())(fake)
         ent = [T.Sym.lift(C[i, j]) for i in range(6) for j in range(6)]
         named, defs = T.canonical_sqrt_names(ent, "wq")
@@ -120,7 +124,7 @@ def gen(ctx):
             for tag, muv in (("small", 1e-10), ("large", 0.0121505856)):
                 T.reset()
                 mu = T.Sym.var("mu", muv)
-                a, b = T.retarget(cls._position_search_interval.fget)(types.SimpleNamespace(mu=mu))
+                a, b = T.retarget(cls._position_search_interval.fget)(T.Proxy(cls, dict(mu=mu)))
                 a, b = T.Sym.lift(a), T.Sym.lift(b)
                 atoms = []
 
@@ -191,13 +195,13 @@ def catalogue_rows():
 
 
 def run(ctx):
-    gen(ctx)
+    ctx.guard("regenerate", gen, ctx)
     ok = ctx.lean_build(["HitenModel.Props.C04"])
     if ok:
         ctx.lean_audit(["HitenModel.Props.C04"], ["HitenModel.Props.C04", "HitenModel.Gen.C04"])
         if ctx.thorough():
             ctx.leanchecker(["HitenModel.Props.C04"])
-    validate_traces(ctx)
+    ctx.guard("validate_traces", validate_traces, ctx)
     numerics(ctx)
     ctx.rule = ("every catalogue pair + log-uniform mu in [1e-9, 0.5] x points L1..L5; distinct by (mu, point); non-trivial = every case "
                 "(position, equilibrium residual, gamma, linear modes vs finite-difference Jacobian, normal-form residuals)")
